@@ -585,12 +585,13 @@ impl Set {
                 None => "-".to_string(),
             };
             out.push_str(&format!(
-                " | t{} st={} c={} r={} d={} ly={} yc={} op={} crit={}",
+                " | t{} st={} c={} r={} d={} uc={} ly={} yc={} op={} crit={}",
                 th.id.id,
                 st,
                 th.causality.verif_dump(),
                 th.released.verif_dump(),
                 th.dpor_vv.verif_dump(),
+                th.unpark_causality.verif_dump(),
                 ly,
                 th.yield_count,
                 op,
